@@ -25,6 +25,9 @@ def scenario(case, exp, spell, seg, nconn):
         conn['steps'] = [{"kind": "data", "items": 1}]
     elif seg == 'bytewise':
         conn['steps'] = [{"kind": "drain", "bytes": 1}]
+    elif seg.startswith('head'):
+        # a first read of 1..3 bytes (shorter than the header terminator), everything else in the second
+        conn['steps'] = [{"kind": "data", "bytes": int(seg[4:])}, {"kind": "drain", "bytes": 65536}]
     else:
         conn['steps'] = [{"kind": "drain", "bytes": "rand", "max": 40}]
     opt = case['opt']
@@ -60,7 +63,7 @@ def run(tier, seed):
     spells = [0, 1 + seed] if q else [0] + [1 + seed + k for k in range(5)]
     for c in cases:
         for sp in spells:
-            for seg in (('one', 'rand') if q else ('one', 'bytewise', 'rand')):
+            for seg in (('one', 'rand', 'head%d' % (1 + len(jobs) % 3)) if q else ('one', 'bytewise', 'rand', 'head1', 'head2', 'head3')):
                 if seg == 'bytewise' and c['case']['reply']['size'] != 'normal' and sp > 1 + seed:
                     continue
                 jobs.append((c, sp, seg, scenario(c['case'], c['exp'], sp, seg, 2)))
